@@ -160,6 +160,10 @@ fn get_text_edit_range_in_string(
     }
 
     let new_text_range = TextRange::new(start_offset.into(), end_offset.into());
+    // the cursor may sit right behind the closing quote: nothing to complete inside the string then
+    if !new_text_range.contains_inclusive(builder.position_offset) {
+        return None;
+    }
 
     builder
         .semantic_model
